@@ -6,6 +6,7 @@ import (
 	"encoding/binary"
 	"encoding/hex"
 	"fmt"
+	"io"
 	"time"
 
 	"github.com/foxboron/go-uefi/efi/signature"
@@ -117,3 +118,29 @@ func trunc(s string, n int) string {
 	}
 	return s
 }
+
+// pausingReader returns (0, nil) before every read that delivers data: io.Reader allows that
+// ("nothing happened; in particular it does not indicate EOF") and non-blocking sources do it.
+type pausingReader struct {
+	r     io.Reader
+	pause int
+	n     int
+}
+
+func (p *pausingReader) Read(b []byte) (int, error) {
+	if p.n < p.pause {
+		p.n++
+		return 0, nil
+	}
+	p.n = 0
+	if len(b) > 3 {
+		b = b[:1+len(b)/2]
+	}
+	return p.r.Read(b)
+}
+
+// PausingReader: one (0, nil) between any two reads with data.
+func PausingReader(r io.Reader) io.Reader { return &pausingReader{r: r, pause: 1} }
+
+// LongPausingReader: three (0, nil) in a row between reads with data.
+func LongPausingReader(r io.Reader) io.Reader { return &pausingReader{r: r, pause: 3} }
